@@ -672,8 +672,15 @@ def _save_composite_subset_state(state, context):
 @loader(CompositeSubsetState)
 def _load_composite_subset_state(rec, context):
     cls = lookup_class_with_patches(rec['_type'])
-    result = cls(context.object(rec['state1']),
-                 context.object(rec['state2']))
+    state1 = context.object(rec['state1'])
+    state2 = context.object(rec['state2'])
+    result = cls(state1, state2)
+    # The constructor stores copies of its arguments, but a state that is
+    # completed by a deferred callback (e.g. SliceSubsetState, which still
+    # holds the *name* of its reference data at this point) is only completed
+    # on the object created here, so these objects are the ones to keep.
+    result.state1 = state1
+    result.state2 = state2
     return result
 
 
